@@ -428,6 +428,22 @@ func (c *rtCase) check() (violations []string, upperJudged bool, classes map[str
 			}
 		}
 	}
+	// replace: a job that was still waiting when the next request was accepted (the runner started it later than it
+	// created the next job - both stamps are taken under the runner's lock) has been replaced, it does not start.
+	// (With a delay in force the next job is always queued; whether the waiting job's timer had fired makes no
+	// difference - also not when its callback was already queuing for the lock.)
+	if c.replace {
+		for i := 0; i+1 < len(c.jobs); i++ {
+			a, b := c.jobs[i], c.jobs[i+1]
+			sa, sb := c.snaps[a.id], c.snaps[b.id]
+			if sa == nil || sb == nil || sa.Start == nil || b.d <= 0 {
+				continue
+			}
+			if sa.Start.After(sb.Created) {
+				violations = append(violations, fmt.Sprintf("replace: job #%d was still waiting when job #%d was accepted (it was started %s after that job was created) and was not replaced", a.idx, b.idx, sa.Start.Sub(sb.Created).Round(100*time.Microsecond)))
+			}
+		}
+	}
 	// replace: the most recently accepted job is never displaced by an older one and it eventually runs
 	if c.replace && len(c.jobs) > 0 {
 		last := c.jobs[len(c.jobs)-1]
